@@ -11,7 +11,15 @@ Nothing is compiled or executed.  The reader
    can parse it -- a body that still does not parse is reported as not covered,
 4. interprets `apply` symbolically once per operator spelling (`sym_apply`), and
 5. enumerates the explicit control-flow paths of every function that touches C
-   nodes and records the reference events along each path (`ref_traces`).
+   nodes and records the reference events along each path (`ref_traces`),
+   including the references kept in containers: a C array from
+   `<DdRef *> PyMem_Malloc(…)` until its `PyMem_Free`, a Python `dict()` that
+   nodes are stored into or that is handed down a recursion, a container
+   parameter (`DdRef *vector`, `table: dict`, `DdHashTable * hash`); events
+   `alloc`/`cnew`/`cparam`, `store`, `load`, `passC`, `free`, and `derefAll` for a
+   loop that is recognised BY ITS SHAPE as "dereference every element once"
+   (`Tracer.release_loop`); the path condition `x.ref <= 0` (`refNonPos`); stores
+   into the `next` field of a node (`setField`).
 
 Whatever is not recognised becomes an explicit `unknown` (apply) or puts the
 function on the `uncovered` list (traces); it is never silently dropped.
@@ -338,6 +346,8 @@ def _sanitize_code(seg):
         t = m.group(1)
         if t == 'DdRef' and not m.group(2):
             return '+'          # marker: unary plus = cast to a node pointer
+        if t == 'DdRef' and m.group(2) == '*':
+            return '-'          # marker: unary minus = cast to an array of node pointers
         return ''
     seg = _CAST.sub(cast, seg)
     # address-of in argument position
@@ -1084,6 +1094,19 @@ REF_METHODS = ('_incref', 'incref')
 DEREF_METHODS = ('_decref', 'decref')
 MAX_PATHS = 3000
 
+# Containers of node references.  A C array obtained from `PyMem_Malloc` is followed from its
+# allocation to its `PyMem_Free`; a Python `dict()` / `{}` becomes a tracked container when a node
+# is stored into it, loaded from it, or when it is handed to a node-returning function of the same
+# module; a parameter of one of the types below is a container owned by the caller.
+# (only arrays of node pointers, `<DdRef *> PyMem_Malloc(…)`, are followed; `int *`, `char **` are not)
+ALLOC_FNS = ('PyMem_Malloc',)
+FREE_FNS = ('PyMem_Free', 'FREE')
+CONT_PARAM_TYPES = ('DdRef *', 'DdNode **', 'DdHashTable *', 'dict')
+PYCONT_CALLS = ('dict',)
+# fields of CUDD's `DdNode` that hold a node pointer without a reference (collision chain of
+# the unique table, used as a traversal mark by `_support` / `_clear_markers`)
+NODE_LINK_FIELDS = ('next',)
+
 
 class Uncovered(Exception):
     pass
@@ -1098,7 +1121,7 @@ class _PathEnd(Exception):
 
 
 class PState:
-    __slots__ = ('env', 'events', 'nid', 'names', 'nullness', 'done', 'loopctl', 'conds')
+    __slots__ = ('env', 'events', 'nid', 'names', 'nullness', 'done', 'loopctl', 'conds', 'ntok')
 
     def __init__(self):
         self.env = {}
@@ -1109,6 +1132,7 @@ class PState:
         self.done = False
         self.loopctl = None    # 'break' / 'continue'
         self.conds = {}        # source of a test over plain local names -> its value on this path
+        self.ntok = 0          # Python containers created so far on this path
 
     def copy(self):
         p = PState()
@@ -1120,6 +1144,7 @@ class PState:
         p.done = self.done
         p.loopctl = self.loopctl
         p.conds = dict(self.conds)
+        p.ntok = self.ntok
         return p
 
     def new(self, name):
@@ -1152,6 +1177,7 @@ class Tracer:
         self.stmts = stmts
         self.has_wrap_fn = has_wrap_fn
         self.params = [p[0] for p in func.params]
+        self.cont_params = {p[0] for p in func.params if p[1] in CONT_PARAM_TYPES}
         self.returns_node = func.kind == 'cdef' and func.ret in ('DdRef', 'DdNode *')
         self.locals = set()
         for st in stmts:
@@ -1293,11 +1319,28 @@ class Tracer:
         if isinstance(target, (ast.Subscript, ast.Attribute)):
             # evaluate the target's sub-expressions for events
             if isinstance(target, ast.Subscript):
-                self.ev(target.value, p)
+                base = self.ev(target.value, p)
                 self.ev(target.slice, p)
+                if self.is_cont(base):
+                    # `vector[i] = g.node`, `table[t] = <stdint.uintptr_t>r`
+                    x = self.node_of(v, p)
+                    if x is not None:
+                        c = self.as_cont(base, p)
+                        p.events.append(('store', c, x))
+                    return      # anything else (an integer, a string, NULL) is not a reference
+            else:
+                base = self.ev(target.value, p)
+                bx = self.node_of(base, p) if base[0] in ('node', 'param') else None
+                if bx is not None and target.attr in NODE_LINK_FIELDS:
+                    # `u.next = Cudd_Not(u.next)`: a pointer field of the node that carries no reference
+                    x = self.node_of(v, p)
+                    if x is None:
+                        raise Uncovered(f'line {st.lineno}: stores an untracked value into a node field')
+                    p.events.append(('setField', bx, target.attr, x))
+                    return
             if v[0] == 'node' and v[2] != 'param':
                 raise Uncovered(f'line {st.lineno}: stores a node into a container or attribute '
-                                '(ownership transfer is not modelled)')
+                                'that is not followed')
             return
         raise Uncovered(f'line {st.lineno}: assignment target')
 
@@ -1330,6 +1373,7 @@ class Tracer:
                 known = (p.nullness[x] == pos)
         else:
             self.ev(st.test, p)
+        dead = self.refcount_test(st.test, p) if nt is None else None
         guard = _src(st.test) if '._ref' in _src(st.test) else None
         pure = self.pure_test(st.test) if nt is None else None
         ckey = _src(st.test) if pure is not None else None
@@ -1349,12 +1393,135 @@ class Tracer:
                     q.events.append(('isNull', nt[0]))
             if guard is not None:
                 q.events.append(('guard', guard, branch))
+            if dead is not None and branch:
+                q.events.append(('refNonPos', dead))
             out.extend(self.block(body, [q]))
         return out
+
+    def refcount_test(self, test, p):
+        """Node id when `test` is `x.ref <= 0` for a node `x` (or a handle `g` whose `g.node` is
+        followed): on the branch where it holds, the path assumes that nobody refers to the node."""
+        if not (isinstance(test, ast.Compare) and len(test.ops) == 1
+                and isinstance(test.ops[0], ast.LtE)
+                and isinstance(test.comparators[0], ast.Constant) and test.comparators[0].value == 0
+                and isinstance(test.left, ast.Attribute) and test.left.attr == 'ref'
+                and isinstance(test.left.value, ast.Name)):
+            return None
+        name = test.left.value.id
+        v = p.env.get(name)
+        if v is not None and v[0] == 'node':
+            return v[1]
+        if v is None and name in self.params and self.param_is_node(name):
+            return self.as_node(('param', name), None, p)
+        key = ('param', name + '.node')
+        if key in p.env:
+            return p.env[key][1]
+        return None
+
+    # -- "for each element of a container: dereference it" ------------------------------
+    def deref_call(self, stmt):
+        """(C function, argument) when `stmt` is exactly one call of a dereference function."""
+        if not (isinstance(stmt, ast.Expr) and isinstance(stmt.value, ast.Call)):
+            return None
+        c = stmt.value
+        fn = _dotted(c.func)
+        if fn is None or c.keywords or not c.args:
+            return None
+        cn = self.cname(fn)
+        if cn not in DEREF_FNS:
+            return None
+        if not all(isinstance(a, ast.Name) for a in c.args[:-1]):
+            return None
+        return cn, c.args[-1]
+
+    @staticmethod
+    def uncast(e):
+        while isinstance(e, ast.UnaryOp) and isinstance(e.op, ast.UAdd):
+            e = e.operand
+        return e
+
+    def release_loop(self, st, p):
+        """Recognise the three shapes of a loop that gives back the reference of EVERY element of
+        a container, each exactly once; returns the event or None.
+
+        A. `for i in range(n): Deref(mgr, c[i])`
+        B. `for nd in c.values(): Deref(mgr, <DdRef><stdint.uintptr_t>nd)`
+        C. `for i in range(n): b = c.bucket[i]` / `while b is not NULL: Deref(mgr, b.value); b = b.next`
+           (the chained buckets of CUDD's `DdHashTable`)
+        """
+        if not isinstance(st, ast.For) or st.orelse or not isinstance(st.target, ast.Name):
+            return None
+        i = st.target.id
+        it = st.iter
+        is_range = (isinstance(it, ast.Call) and _dotted(it.func) == 'range' and len(it.args) == 1
+                    and not it.keywords)
+        if is_range and len(st.body) == 1:
+            dc = self.deref_call(st.body[0])                                   # shape A
+            if dc is not None:
+                a = self.uncast(dc[1])
+                if (isinstance(a, ast.Subscript) and isinstance(a.value, ast.Name)
+                        and isinstance(a.slice, ast.Name) and a.slice.id == i):
+                    v = self.ev(a.value, p)
+                    if self.is_cont(v) and self.holds_nodes(v):
+                        return ('derefAll', self.as_cont(v, p), dc[0], _src(it.args[0]))
+            return None
+        if (isinstance(it, ast.Call) and isinstance(it.func, ast.Attribute) and it.func.attr == 'values'
+                and isinstance(it.func.value, ast.Name) and not it.args and len(st.body) == 1):
+            dc = self.deref_call(st.body[0])                                   # shape B
+            if dc is not None:
+                a = self.uncast(dc[1])
+                if isinstance(a, ast.Name) and a.id == i:
+                    v = self.ev(it.func.value, p)
+                    if self.is_cont(v) and self.holds_nodes(v):
+                        return ('derefAll', self.as_cont(v, p), dc[0], 'values')
+            return None
+        if is_range and len(st.body) == 2:                                     # shape C
+            a0, w = st.body
+            if not (isinstance(a0, ast.Assign) and len(a0.targets) == 1
+                    and isinstance(a0.targets[0], ast.Name) and isinstance(w, ast.While)
+                    and not w.orelse and len(w.body) == 2):
+                return None
+            b = a0.targets[0].id
+            src = a0.value
+            ok = (isinstance(src, ast.Subscript) and isinstance(src.slice, ast.Name) and src.slice.id == i
+                  and isinstance(src.value, ast.Attribute) and src.value.attr == 'bucket'
+                  and isinstance(src.value.value, ast.Name))
+            t = w.test
+            ok = ok and (isinstance(t, ast.Compare) and len(t.ops) == 1 and isinstance(t.ops[0], ast.IsNot)
+                         and isinstance(t.left, ast.Name) and t.left.id == b
+                         and isinstance(t.comparators[0], ast.Name) and t.comparators[0].id == 'NULL')
+            if not ok:
+                return None
+            dc = self.deref_call(w.body[0])
+            adv = w.body[1]
+            if dc is None:
+                return None
+            a = self.uncast(dc[1])
+            ok = (isinstance(a, ast.Attribute) and a.attr == 'value' and isinstance(a.value, ast.Name)
+                  and a.value.id == b
+                  and isinstance(adv, ast.Assign) and len(adv.targets) == 1
+                  and isinstance(adv.targets[0], ast.Name) and adv.targets[0].id == b
+                  and isinstance(adv.value, ast.Attribute) and adv.value.attr == 'next'
+                  and isinstance(adv.value.value, ast.Name) and adv.value.value.id == b)
+            if not ok:
+                return None
+            v = self.ev(src.value.value, p)
+            if self.is_cont(v) and self.holds_nodes(v):
+                return ('derefAll', self.as_cont(v, p), dc[0], _src(it.args[0]))
+        return None
 
     def loop(self, st, p):
         if st.orelse:
             raise Uncovered(f'line {st.lineno}: loop with else')
+        rel = self.release_loop(st, p)
+        if rel is not None:
+            p.events.append(rel)
+            for s in st.body:
+                for n in ast.walk(s):
+                    if isinstance(n, ast.Name) and isinstance(n.ctx, ast.Store):
+                        p.env[n.id] = ('other',)
+            self.bind_opaque(st.target, p)
+            return [p]
         relevant = any(_has_relevant_call(s, self) for s in st.body) or self.mentions_nodes(st, p)
         if isinstance(st, ast.For):
             self.ev(st.iter, p)
@@ -1411,6 +1578,10 @@ class Tracer:
     def forget(self, name, p):
         for k in [k for k, (names, _v) in p.conds.items() if name in names]:
             del p.conds[k]
+        # `g = …` makes `g.node` a different node from now on
+        for k in [k for k in p.env if isinstance(k, tuple) and len(k) == 2 and k[0] == 'param'
+                  and isinstance(k[1], str) and k[1].startswith(name + '.')]:
+            del p.env[k]
 
     @staticmethod
     def pure_test(test):
@@ -1426,6 +1597,15 @@ class Tracer:
         return names
 
     def mentions_nodes(self, st, p):
+        """The loop body stores into, or reads from, a container of nodes that is followed."""
+        for s in st.body:
+            for n in ast.walk(s):
+                if isinstance(n, ast.Subscript) and isinstance(n.value, ast.Name):
+                    v = p.env.get(n.value.id)
+                    if v is None and n.value.id in self.cont_params:
+                        v = ('contparam', n.value.id)
+                    if v is not None and self.is_cont(v) and self.holds_nodes(v):
+                        return True
         return False
 
     def try_(self, st, p):
@@ -1444,6 +1624,14 @@ class Tracer:
             for h in st.handlers:
                 q = entry.copy()
                 outs.extend(self.block(h.body, [q]))
+        elif st.finalbody and any(isinstance(n, ast.Call) for n in ast.walk(st.body[0])):
+            # `try: r = f(…) finally: …` without handlers: the first statement of the body raises
+            # (a `cdef … except NULL` function of the module, a Python call) before it had any
+            # effect; the `finally` block runs and the exception propagates
+            q = entry.copy()
+            q.events.append(('raise', 'propagated'))
+            q.done = True
+            outs.append(q)
         if st.finalbody:
             fin = []
             for q in outs:
@@ -1479,7 +1667,49 @@ class Tracer:
             return x
         return None
 
-    def ev(self, e, p):
+    def node_of(self, v, p):
+        """Node id of a value that denotes a node (a tracked node, a node parameter, `h.node`)."""
+        if v[0] == 'node':
+            return v[1]
+        if v[0] == 'param' and (v[1].endswith('.node') or self.param_is_node(v[1])):
+            return self.as_node(v, None, p)
+        return None
+
+    @staticmethod
+    def is_cont(v):
+        return v[0] in ('cont', 'contparam', 'pycont')
+
+    def as_cont(self, v, p):
+        """Container id of a container value (parameters and Python containers lazily)."""
+        if v[0] == 'cont':
+            return v[1]
+        if v[0] == 'contparam':
+            key = ('contparam', v[1])
+            if key not in p.env:
+                c = p.new(v[1])
+                p.events.append(('cparam', c, v[1]))
+                p.env[key] = ('cont', c, 'nodes')
+            return p.env[key][1]
+        if v[0] == 'pycont':
+            if v not in p.env:
+                c = p.new(v[1])
+                p.events.append(('cnew', c, v[1]))
+                p.env[v] = ('cont', c, 'nodes')
+            return p.env[v][1]
+        return None
+
+    def is_python_cont(self, v):
+        if v[0] == 'pycont':
+            return True
+        if v[0] == 'contparam':
+            return any(n == v[1] and t == 'dict' for n, t, _d in self.func.params)
+        return False
+
+    def holds_nodes(self, v):
+        return v[0] in ('contparam', 'pycont') or (v[0] == 'cont' and v[2] == 'nodes')
+
+    def ev(self, e, p, cast=False):
+        """`cast`: the expression is the operand of a `<DdRef>` cast."""
         if e is None:
             return ('other',)
         if isinstance(e, ast.Constant):
@@ -1489,6 +1719,8 @@ class Tracer:
                 return ('null',)
             if e.id in p.env:
                 return p.env[e.id]
+            if e.id in self.cont_params:
+                return ('contparam', e.id)
             if e.id in self.params:
                 return ('param', e.id)
             if e.id in self.locals:
@@ -1509,16 +1741,42 @@ class Tracer:
                     return ('node', b[1], 'handle')
                 text = _src(e)
                 return ('param', text)
-            self.ev(e.value, p)
+            b = self.ev(e.value, p)
+            if e.attr in NODE_LINK_FIELDS and b[0] in ('node', 'param'):
+                bx = self.node_of(b, p)
+                if bx is not None:
+                    # `u.next`: a node pointer read from a field of `u`, no reference involved
+                    x = p.new('.' + e.attr)
+                    p.events.append(('produce', x, 'DdNode.' + e.attr, (bx,)))
+                    return ('node', x, 'call')
             return ('other',)
         if isinstance(e, ast.Call):
             return self.call(e, p)
         if isinstance(e, ast.UnaryOp) and isinstance(e.op, ast.UAdd):
-            v = self.ev(e.operand, p)
+            v = self.ev(e.operand, p, cast=True)
             a = self.as_node(v, e.operand, p) if v[0] in ('node', 'param') else None
             x = p.new('<DdRef>')
             p.events.append(('produce', x, '<DdRef>', (a,) if a is not None else ()))
             return ('node', x, 'call')
+        if isinstance(e, ast.UnaryOp) and isinstance(e.op, ast.USub):
+            if isinstance(e.operand, ast.Call):
+                return self.call(e.operand, p, nodes_array=True)    # `<DdRef *> PyMem_Malloc(…)`
+            self.ev(e.operand, p)
+            return ('other',)
+        if isinstance(e, ast.Subscript):
+            b = self.ev(e.value, p)
+            self.ev(e.slice, p)
+            if self.is_cont(b) and self.holds_nodes(b) and (cast or not self.is_python_cont(b)):
+                # `vector[index]`, `<DdRef><stdint.uintptr_t>table[t]`: an element the container refers
+                # to (a Python container may hold anything: only what is cast back to a node counts)
+                c = self.as_cont(b, p)
+                x = p.new(_src(e))
+                p.events.append(('load', x, c))
+                return ('node', x, 'load')
+            return ('other',)
+        if isinstance(e, ast.Dict) and not e.keys:
+            p.ntok += 1
+            return ('pycont', 'dict', e.lineno, p.ntok)
         if isinstance(e, (ast.Tuple, ast.List)):
             return ('tuple', [self.ev(x, p) for x in e.elts])
         if isinstance(e, (ast.Lambda, ast.ListComp, ast.SetComp, ast.DictComp, ast.GeneratorExp)):
@@ -1537,7 +1795,7 @@ class Tracer:
                 self.ev(ch, p)
         return ('other',)
 
-    def call(self, c, p):
+    def call(self, c, p, nodes_array=False):
         fn = _dotted(c.func)
         if fn is None:
             self.ev(c.func, p)
@@ -1548,6 +1806,30 @@ class Tracer:
             return ('other',)
         cn = self.cname(fn)
         last = fn.rsplit('.', 1)[-1]
+        # arrays and Python containers
+        if cn in ALLOC_FNS and not nodes_array:
+            # an array of something else (`int *`, `char **`): not followed
+            for a in c.args:
+                self.ev(a, p)
+            return ('other',)
+        if cn in ALLOC_FNS:
+            size = c.args[0] if c.args else None
+            if (isinstance(size, ast.BinOp) and isinstance(size.op, ast.Mult)
+                    and isinstance(size.right, ast.Call) and _dotted(size.right.func) == 'sizeof'):
+                size = size.left
+            for a in c.args:
+                self.ev(a, p)
+            x = p.new(cn)
+            p.events.append(('alloc', x, cn, _src(size) if size is not None else ''))
+            return ('cont', x, 'nodes')
+        if cn in FREE_FNS and len(c.args) == 1:
+            v = self.ev(c.args[0], p)
+            if self.is_cont(v):
+                p.events.append(('free', self.as_cont(v, p), cn))
+            return ('other',)
+        if fn in PYCONT_CALLS and not c.args and not c.keywords:
+            p.ntok += 1
+            return ('pycont', fn, c.lineno, p.ntok)
         # reference functions
         if cn in REF_FNS or cn in DEREF_FNS or (
                 '.' in fn and last in REF_METHODS + DEREF_METHODS and c.args):
@@ -1600,6 +1882,8 @@ class Tracer:
                     args.append(v[1])
                 elif v[0] == 'param' and (v[1].endswith('.node') or self.param_is_node(v[1])):
                     args.append(self.as_node(v, a, p))
+                elif self.is_cont(v) and self.holds_nodes(v):
+                    p.events.append(('passC', self.as_cont(v, p), cn))
             x = p.new(cn)
             p.events.append(('produce', x, cn, tuple(args)))
             return ('node', x, 'call')
@@ -1607,7 +1891,11 @@ class Tracer:
         if isinstance(c.func, ast.Attribute):
             self.ev(c.func.value, p)
         for a in c.args:
-            self.ev(a, p)
+            v = self.ev(a, p)
+            if v[0] == 'cont' and v[2] == 'nodes':
+                p.events.append(('passC', v[1], cn))
+            elif v[0] == 'pycont' and v in p.env:
+                p.events.append(('passC', p.env[v][1], cn))
         for k in c.keywords:
             self.ev(k.value, p)
         return ('other',)
@@ -1633,7 +1921,8 @@ def role_of(f):
     return 'plain'
 
 
-RELEVANT = ('produce', 'ref', 'deref', 'wrap', 'initCall', 'retNode')
+RELEVANT = ('produce', 'ref', 'deref', 'wrap', 'initCall', 'retNode', 'store', 'load', 'derefAll',
+            'setField')
 
 
 def declared_c_functions(lls):
@@ -1723,6 +2012,18 @@ def lean_event(ev):
         return f'.{k}'
     if k == 'raise':
         return f'.raise {_ls(ev[1])}'
+    if k == 'alloc':
+        return f'.alloc {ev[1]} {_ls(ev[2])} {_ls(ev[3])}'
+    if k in ('cnew', 'cparam', 'passC', 'free'):
+        return f'.{k} {ev[1]} {_ls(ev[2])}'
+    if k in ('store', 'load'):
+        return f'.{k} {ev[1]} {ev[2]}'
+    if k == 'derefAll':
+        return f'.derefAll {ev[1]} {_ls(ev[2])} {_ls(ev[3])}'
+    if k == 'refNonPos':
+        return f'.refNonPos {ev[1]}'
+    if k == 'setField':
+        return f'.setField {ev[1]} {_ls(ev[2])} {ev[3]}'
     raise ValueError(ev)
 
 
